@@ -723,9 +723,12 @@ func (ctx *RenderContext) EvaluateExpression(node Node) (interface{}, error) {
 		return n.value, nil
 
 	case *VariableNode:
-		// Check if it's a macro first
-		if macro, ok := ctx.GetMacro(n.name); ok {
-			return macro, nil
+		// Check if it's a macro first, unless this context has a variable of that name itself:
+		// a macro parameter (or a variable set in the body) hides a macro of the same name
+		if _, own := ctx.context[n.name]; !own {
+			if macro, ok := ctx.GetMacro(n.name); ok {
+				return macro, nil
+			}
 		}
 
 		// Otherwise, look up variable
